@@ -27,13 +27,19 @@ def run(run, h):
         for key in keys:
             for _ in range(rounds):
                 one(run, h, batch, rng, key)
+            for shape in rng.sample(SHAPES, 2 if run.tier == "quick" else len(SHAPES)):
+                one(run, h, batch, rng, key, shape)
     batch.flush()
 
 
-def one(run, h, batch, rng, key):
+def one(run, h, batch, rng, key, shape=None):
     n, pk, basis = key["n"], key["pk"], key["basis"]
     ms = [rand_scalar(rng, 0.5) for _ in range(n)]
     bf, kbf = rand_scalar(rng, 0.15), rand_scalar(rng, 0.15)
+    if shape:
+        ms = shaped_tuple(rng, n, shape)
+        bf = rng.choice([bf, rng.randrange(2 ** 63, 2 ** 64), 0])
+        run.count("shape " + shape)
     ks = [rand_scalar(rng, 0.15) for _ in range(n)]
     u = rng.choice([rand_nz(rng), rand_nz(rng), 1, 0])
     ctx = rng.randbytes(6)
